@@ -761,6 +761,31 @@ func init() {
 }
 
 func init() {
+	// coin.AddAmount(x) / coin.SubAmount(x): the coin with the same denom and the amount plus / minus x
+	// (the SDK's Coin{coin.Denom, coin.Amount.Add(x)}; SubAmount panics on a negative result)
+	for _, m := range []struct{ name, op string }{{"AddAmount", "Add"}, {"SubAmount", "Sub"}} {
+		m := m
+		natives[pkgSDK+"(Coin)."+m.name] = func(x *Exec, st *State, fr *Frame, at ssa.Instruction, a []Val) (Val, bool) {
+			si := x.S.StructInfo(a[0].Typ)
+			if si == nil || len(si.fields) != 2 || fieldIndex(si.typ, "Denom") != 0 || fieldIndex(si.typ, "Amount") != 1 || len(a) != 2 {
+				return Val{}, false
+			}
+			bin := natives[pkgMath+"(Int)."+m.op]
+			if bin == nil {
+				return Val{}, false
+			}
+			den := App(si.fields[0], x.S.fieldSel(si.sort, si.typ, 0), a[0].T)
+			amt := Val{T: App(si.fields[1], x.S.fieldSel(si.sort, si.typ, 1), a[0].T), Typ: a[1].Typ}
+			sum, ok := bin(x, st, fr, at, []Val{amt, a[1]})
+			if !ok {
+				return Val{}, false
+			}
+			if m.op == "Sub" {
+				x.safety(st, fr, at, "SubAmount.nonneg", App(SBool, ">=", mintV(sum.T), IntLit(0)))
+			}
+			return Val{T: App(si.sort, "mk-"+si.sort, den, sum.T), Typ: a[0].Typ}, true
+		}
+	}
 	// sdk.Coin getters
 	natives[pkgSDK+"(Coin).GetDenom"] = func(x *Exec, st *State, fr *Frame, at ssa.Instruction, a []Val) (Val, bool) {
 		si := x.S.StructInfo(a[0].Typ)
